@@ -208,7 +208,7 @@ class Ctx(object):
         self.solver.pop()
         forced = (r != z3.sat)
         if not forced:
-            alt = list(self.trail) + [(not taken, False, h, aux)]
+            alt = list(self.trail) + [((not taken, False, h, aux, term.sexpr()[:120]) if DEBUG else (not taken, False, h, aux))]
             self.pending.append((alt, alt_model))
         self.solver.add(term if taken else z3.Not(term))   # model stays valid
         self._record(term, tid, taken, forced, h, aux)
@@ -217,7 +217,7 @@ class Ctx(object):
     def _record(self, term, tid, taken, forced, h, aux=None):
         if DEBUG:
             _DBG[h] = term.sexpr()[:300]
-        self.trail.append((taken, forced, h, aux))
+        self.trail.append((taken, forced, h, aux, term.sexpr()[:120]) if DEBUG else (taken, forced, h, aux))
         self.known[tid] = taken
         self.keep.append(term)
         nt = z3.Not(term)
@@ -235,14 +235,26 @@ class Ctx(object):
         self.keep.append(term)
         for _ in range(100000):
             i = len(self.trail)
-            if i < len(self.prefix) and self.prefix[i][3] is not None:
-                v = self.prefix[i][3]       # replay: the value tried at this point of the path
+            if i < len(self.prefix):
+                # replay: use the value tried at this point of the original path - but only if the
+                # recorded decision really is `term == value`; otherwise the original resolved this
+                # concretisation from already known facts (no trail entry), i.e. the value is
+                # implied by the constraints so far, and any model of them yields it.
+                v = self.prefix[i][3]
+                if v is None or canon_hash(z3.simplify(term == v)) != self.prefix[i][2]:
+                    if self._check() != z3.sat:
+                        raise Inconclusive('replayed prefix infeasible (engine bug)')
+                    v = self.solver.model().eval(term, model_completion=True).as_long()
             else:
                 v = self.get_model().eval(term, model_completion=True).as_long()
             if self.decide(term == v, aux=v):
                 self.conc[tid] = v
                 return v
-        raise Inconclusive('concretize did not terminate')
+        if DEBUG:
+            print('PREFIX', [(x[0], x[3], x[4]) for x in self.prefix])
+            print('TRAIL', [(x[0], x[3], x[4]) for x in self.trail])
+        raise Inconclusive('concretize did not terminate: term %s last v %r known %r replaying %r model-valid %r'
+                           % (term.sexpr()[:200], v, self.known.get(z3.simplify(term == v).get_id()), self.replaying(), self.model is not None))
 
 
 _COMM = None
@@ -369,6 +381,9 @@ class SymInt(object):
 
     # arithmetic
     def _bin(self, o, f):
+        if isinstance(o, float):
+            # mixed int/float arithmetic (e.g. the suffix filter's midpoints): concretise
+            return f(self.concrete(), o) if f.__code__.co_varnames[0] == 'a' else NotImplemented
         ot = as_int_term(o)
         if ot is None:
             return NotImplemented
@@ -612,12 +627,22 @@ def run_path(fn, prefix, model=None):
     return res, c.pending
 
 
+def _viol_key(info):
+    d = info.get('detail') if isinstance(info, dict) else None
+    if isinstance(d, dict):
+        sc = d.get('scenario') or {}
+        return (d.get('prop'), d.get('clause'), d.get('subclass'), sc.get('entry'), sc.get('filter'),
+                sc.get('measure'))
+    return (str(info)[:80],)
+
+
 class Stats(object):
     def __init__(self):
         self.paths = 0
         self.ok = 0
         self.vacuous = 0
         self.violations = []
+        self._vkeys = set()
         self.decisions = 0
         self.forks = 0
         self.checks = 0
@@ -628,7 +653,7 @@ class Stats(object):
         self.inconclusive = None
         self.wall_s = 0.0
 
-    def add(self, r, max_viol=5, max_samples=6):
+    def add(self, r, max_viol=12, max_samples=6):
         self.paths += 1
         self.decisions += r.decisions
         self.forks += r.forks
@@ -639,7 +664,11 @@ class Stats(object):
         elif r.status == 'vacuous':
             self.vacuous += 1
         elif r.status == 'violation':
-            if len(self.violations) < max_viol:
+            key = _viol_key(r.info)
+            if key in self._vkeys:
+                pass
+            elif len(self.violations) < max_viol:
+                self._vkeys.add(key)
                 self.violations.append(r.info)
             else:
                 self.violations_dropped = getattr(self, 'violations_dropped', 0) + 1
@@ -654,7 +683,11 @@ class Stats(object):
         self.paths += o.paths
         self.ok += o.ok
         self.vacuous += o.vacuous
-        self.violations.extend(o.violations)
+        for v in o.violations:
+            k = _viol_key(v)
+            if k not in self._vkeys and len(self.violations) < 12:
+                self._vkeys.add(k)
+                self.violations.append(v)
         self.decisions += o.decisions
         self.forks += o.forks
         self.checks += o.checks
